@@ -359,6 +359,21 @@ def _scenarios(ctx, g):
             out.append(("refresh-wrongly-skipped", "refresh-age-%s" % age,
                         "refresh with last update %s s ago did not even try (result %s)" % (age, f)))
         ctx.case("scenario:refresh:%s" % age)
+    # 3b. history: a refresh that reached for the source and FAILED (source unreachable) still counts as the last attempt:
+    #     a second one straight afterwards is inside the refresh interval and must be skipped without contacting the source
+    d = fresh("refresh-after-failure")
+    k = sched.spawn("R", d, g["inst"], ("refresh",))
+    f1 = run_to_end(k)
+    k.reap()
+    k = sched.spawn("R", d, g["inst"], ("refresh",))
+    f2 = run_to_end(k)
+    k.reap()
+    if not f1.get("network"):
+        out.append(("refresh-wrongly-skipped", "refresh-after-failure", "the first refresh of a fresh cache did not even try (%s)" % f1))
+    elif f2.get("result") != "skipped" or f2.get("network"):
+        out.append(("refresh-not-skipped", "refresh-after-failure", "a refresh failed (%s); the next one, attempted immediately afterwards, "
+                    "was not skipped: %s" % (f1, f2)))
+    ctx.case("scenario:refresh-after-failure")
     # 4. damaged (empty / garbage) timestamp file must read as "never updated", not raise
     for content in ["", "garbage\n"]:
         d = fresh("stamp")
